@@ -206,6 +206,49 @@ def _check_block(case):
     return None
 
 
+def _inh_cases(tier, seed):
+    for fmt in ('epytext', 'restructuredtext'):
+        for k in ((0, 3) if tier == 'quick' else (0, 1, 3, 7)):
+            yield {'fmt': fmt, 'k': k, 'inherited': True}
+
+
+def _check_inherited(case):
+    """problems in an inherited docstring and in the body of an @ivar field are reported in the file, and at the line, that holds the text"""
+    from pydoctor import driver
+    ep = case['fmt'] == 'epytext'
+    link = (lambda n: f'L{{{n}}}') if ep else (lambda n: f'`{n}`')
+    ivar = '@ivar field: see ' + link('missing_field') if ep else ':ivar field: see ' + link('missing_field')
+    base = ('\n' * case['k'] + 'class Base:\n    """\n    Base class.\n\n    ' + ivar + '\n    """\n'
+            '    def run(self):\n        """\n        Run it.\n\n        More: ' + link('missing_inherited') + '\n        """\n')
+    sub = 'from pk.base import Base\n\n\n\n\nclass Sub(Base):\n    """Sub."""\n\n\n    def run(self):\n        pass\n'
+    d = tempfile.mkdtemp(prefix='c16.', dir='/var/tmp')
+    try:
+        os.makedirs(os.path.join(d, 'pk'))
+        for name, text in (('__init__.py', ''), ('base.py', base), ('sub.py', sub)):
+            with open(os.path.join(d, 'pk', name), 'w') as f:
+                f.write(text)
+        out = io.StringIO()
+        with contextlib.redirect_stdout(out), contextlib.redirect_stderr(io.StringIO()):
+            try:
+                driver.main(['--html-output', os.path.join(d, 'out'), '--docformat', case['fmt'], '--project-name', 'p', os.path.join(d, 'pk')])
+            except SystemExit:
+                pass
+        fails = []
+        for needle in ('missing_inherited', 'missing_field'):
+            want = next(i for i, l in enumerate(base.splitlines(), 1) if needle in l)
+            msgs = [l for l in out.getvalue().splitlines() if needle in l and 'Cannot find link target' in l]
+            if not msgs:
+                fails.append({'observed': f'no message about {needle}', 'required': 'the problem is reported', 'class': 'inh-missing'})
+            for l in msgs:
+                m = re.match(r'(.*?):(\d+|\?\?\?): ', l)
+                if not m or not m.group(1).endswith('base.py') or m.group(2) != str(want):
+                    fails.append({'observed': f'{needle}: reported as {l[:120]!r}', 'required': f'base.py:{want} (the file and line that hold the text)',
+                                  'class': 'inh-location:' + needle})
+        return fails or None
+    finally:
+        shutil.rmtree(d, ignore_errors=True)
+
+
 HARNESS = {
     f'{U}:extract_docstring_linenum': {'cases': _lin_cases, 'check': _check_lin,
         'covers': [f'{U}:extract_docstring', f'{M}:Documentable.setDocstring'],
@@ -218,4 +261,7 @@ HARNESS = {
     'pydoctor/epydoc/markup/restructuredtext.py:_SplitFieldsTranslator': {'cases': _block_cases, 'check': _check_block,
         'bound': '8 multi-line constructs (consolidated fields as definition/bullet lists, :param:/@param fields, paragraphs, list items, google/numpy sections) x 2 offsets x {function, method}'},
     f'{D}:main': {'cases': _exit_cases, 'check': _check_exit, 'bound': '4 problem kinds x {-W, no -W}, real runs'},
+    f'{E}:format_docstring': {'cases': _inh_cases, 'check': _check_inherited,
+        'bound': 'an unresolvable link in a docstring inherited by an overriding method of another file, and in the body of an @ivar/:ivar: field; '
+                 '2 formats x 2 (4) vertical offsets, real runs'},
 }
